@@ -1146,21 +1146,6 @@ func genSpec(rt *rapid.T) string {
 	return "fastgo:" + strings.Join(opts, ",")
 }
 
-// known is vt.Known plus a development override (VERIF_C10_ASSUME lists
-// prop/id pairs to treat as listed while another check's finding is not
-// registered yet).
-func known(p, id string) bool {
-	if vt.Known(p, id) {
-		return true
-	}
-	for _, x := range strings.Split(os.Getenv("VERIF_C10_ASSUME"), ",") {
-		if x == p+"/"+id {
-			return true
-		}
-	}
-	return false
-}
-
 // everyType calls f on every written type expression of the program (fields,
 // arguments, return types, throws, typedef targets, constants), children first.
 func everyType(p *idl.Program, f func(t *idl.Type)) {
@@ -1191,12 +1176,14 @@ func everyType(p *idl.Program, f func(t *idl.Type)) {
 	}
 }
 
-// narrow removes from the program exactly the shapes other properties have
-// listed as known findings of the fastgo backend (they make the whole program
-// unusable here), when they are listed.
+// narrow removes from the program exactly the shapes that other properties
+// have listed as known (unrepaired) findings of the fastgo backend, because
+// they make the whole program unusable here.  Both are repaired in the tree at
+// the time of writing (C01: fastgo-binary-map-key, fastgo-typedef-container),
+// so the switches are off and the shapes are part of the domain.
 func narrow(p *idl.Program) {
-	// C01: map<binary, …>: generated FastRead assigns the []byte ReadBinary returns to the string key: no compile.
-	if known("C01", "fastgo-binary-map-key") {
+	// map<binary, …>: generated FastRead assigned the []byte ReadBinary returns to the string key: no compile.
+	if vt.Known("C01", "fastgo-binary-map-key") {
 		hit := false
 		everyType(p, func(t *idl.Type) {
 			if t.Base == "map" && t.Key != nil && t.Key.FinalCat() == "binary" {
@@ -1208,9 +1195,9 @@ func narrow(p *idl.Program) {
 			vt.Excluded("C01-fastgo-binary-map-key")
 		}
 	}
-	// C04: a type expression that names a typedef of a map makes `-g fastgo` panic (nil KeyType in genBLengthMap),
-	// the panic is recovered in main and nothing is written: write the map type out instead of naming it.
-	if known("C04", "fastgo-typedef-map-panic") || known("C04", "recovered-panic-exits-0") {
+	// a type expression naming a typedef of a map made `-g fastgo` panic (nil KeyType in genBLengthMap); the panic is
+	// recovered in main, the process exits 0 and writes nothing (S5): write the map type out instead of naming it.
+	if vt.Known("C01", "fastgo-typedef-container") || vt.Known("C04", "fastgo-typedef-map-panic") {
 		hit := false
 		everyType(p, func(t *idl.Type) {
 			if t.Ref != nil && t.Ref.Kind == idl.KTypedef && t.FinalCat() == "map" {
@@ -1220,7 +1207,7 @@ func narrow(p *idl.Program) {
 			}
 		})
 		if hit {
-			vt.Excluded("C04-fastgo-typedef-map-panic")
+			vt.Excluded("fastgo-typedef-map-panic")
 		}
 	}
 }
